@@ -299,6 +299,17 @@ def drive(ctx, sched, mon, P, passes_requested, opts):
         # ---- observers after the action --------------------------------
         ob = observers(ctx, sched)
         ctx.trace(("obs", ob["n"], ob["r"], ob["max_n"], ob["is_exhausted"], ob["is_running"]))
+        if kind == "EndReverse" and permitted == INF and ctx.is_fatal("C09.repeat"):
+            # the public state at consecutive EndReverse points is the same (with equal stored
+            # sets, C04, and equal passes, this is the inductive step for any number of passes)
+            snap = (ob["n"], ob["r"], ob["max_n"], _truth(ob["is_exhausted"]), _truth(ob["is_running"]))
+            if getattr(mon, "_end_reverse_obs", None) is None:
+                mon._end_reverse_obs = snap
+            else:
+                ctx.require(sym_and(*[a == b if (a is not None and b is not None) else a is b
+                                      for a, b in zip(snap, mon._end_reverse_obs)]),
+                            "C09.repeat", lambda: {"public_state_at_EndReverse": snap,
+                                                   "at_first_EndReverse": mon._end_reverse_obs}, soft=True)
         if ctx.is_fatal("C08.n"):
             if mon.fwd is not None:
                 ctx.require(ob["n"] == mon.fwd, "C08.n",
